@@ -56,10 +56,11 @@ def e1_known_sig(sc, v):
         return None
     o, k = v["oracle"], v.get("kind")
     timeerr = k == "FinamTimeError"
-    none_sum = k == "AttributeError" and "to_reduced_units" in v.get("msg", "") and v.get("shared_ctx") == "dup-stateful"
+    # SumOverTime hands on None when the merged request stream makes its integration interval empty or negative
+    none_sum = k in ("AttributeError", "TypeError") and "NoneType" in v.get("msg", "")
     if o in ("update-raises", "run-raises", "weighted-sum") and timeerr:
         return SHARED
-    if o in ("update-raises-other", "run-raises") and none_sum:
+    if o in ("update-raises-other", "run-raises", "weighted-sum") and none_sum:
         return SHARED
     if o == "model-series-differs" and k == "refuse" and v.get("shared_ctx") == "dup-stateful":
         return SHARED       # the ideal link refuses an empty integration interval, finam answers something
